@@ -2,7 +2,13 @@ mod comp;
 mod core;
 mod proj;
 
+mod c06;
+mod c08;
+mod tok;
 mod c14;
+mod c17;
+mod gen;
+mod iv;
 
 use crate::core::{Ctx, Tier};
 
@@ -20,6 +26,99 @@ fn main() {
         usage();
     }
     let prop = args[1].clone();
+    if prop == "C08-worker" {
+        comp::install_panic_hook();
+        c08::worker(&args[2..]);
+    }
+    if prop == "C08-one" {
+        comp::install_panic_hook();
+        c08::one(&args[2..]);
+    }
+    if prop == "gen-show" {
+        let seed: u64 = args[2].parse().unwrap();
+        let idx: u64 = args[3].parse().unwrap();
+        let set = gen::random_set(seed, 0, idx, &gen::GenOpts::default());
+        let r = set.render();
+        print!("{}", r.text);
+        let run = comp::rasn1(&r.text);
+        eprintln!("{}", run.out.brief());
+        for w in run.out.warnings() {
+            eprintln!("WARN {w}");
+        }
+        std::process::exit(0);
+    }
+    if prop == "gen-shrink" {
+        // shrink a generated set while the compile outcome class stays the same
+        let seed: u64 = args[2].parse().unwrap();
+        let idx: u64 = args[3].parse().unwrap();
+        let set = gen::random_set(seed, 0, idx, &gen::GenOpts::default());
+        let class = |s: &gen::ModuleSet| -> String {
+            let run = comp::rasn1(&s.render().text);
+            match &run.out {
+                comp::Outcome::Ok { warnings, .. } if warnings.is_empty() => "Ok".to_string(),
+                comp::Outcome::Ok { warnings, .. } => format!("Warn: {}", core::one_line(&warnings[0], 50)).chars().filter(|c| !c.is_ascii_digit()).collect(),
+                comp::Outcome::Err { .. } => "Err".into(),
+                comp::Outcome::Panic(p) => format!("Panic {p}"),
+            }
+        };
+        let c0 = class(&set);
+        let m = gen::shrink(&set, &|s| class(s) == c0);
+        println!("{c0}\n{}", m.render().text);
+        std::process::exit(0);
+    }
+    if prop == "gen-stats" {
+        let n: u64 = args[2].parse().unwrap();
+        let mut stats: std::collections::BTreeMap<String, (u64, String)> = Default::default();
+        for idx in 0..n {
+            let set = gen::random_set(1, 0, idx, &gen::GenOpts::default());
+            let r = set.render();
+            let run = comp::rasn1(&r.text);
+            let key = match &run.out {
+                comp::Outcome::Ok { warnings, .. } if warnings.is_empty() => "Ok".to_string(),
+                comp::Outcome::Ok { warnings, .. } => format!("Warn: {}", core::one_line(&warnings[0], 90)),
+                o => o.brief(),
+            };
+            let key: String = key.chars().map(|c| if c.is_ascii_digit() { '#' } else { c }).collect();
+            let e = stats.entry(key).or_insert((0, format!("idx={idx}")));
+            e.0 += 1;
+        }
+        for (k, (n, ex)) in stats {
+            println!("{n:6} {ex:10} {k}");
+        }
+        std::process::exit(0);
+    }
+    if prop == "C08-show" {
+        let corpus = c08::load_corpus();
+        let seed: u64 = args[2].parse().unwrap();
+        let idx: u64 = args[3].parse().unwrap();
+        let nfiles: usize = args[4].parse().unwrap();
+        let c = c08::gen_case_pub(seed, idx, &corpus, nfiles);
+        eprintln!("cat={} origin={}", c.cat, c.origin);
+        print!("{}", c.input);
+        std::process::exit(0);
+    }
+    if prop == "probe" {
+        use rasn_compiler::prelude::*;
+        let src = std::fs::read_to_string(&args[2]).unwrap();
+        let r = if args.len() > 3 {
+            Compiler::<TypescriptBackend, _>::new().add_asn_literal(src).compile_to_string()
+        } else {
+            Compiler::<RasnBackend, _>::new().add_asn_literal(src).compile_to_string()
+        };
+        match r {
+            Ok(r) => {
+                println!("{}", r.generated);
+                for w in r.warnings {
+                    println!("WARN: {w}");
+                }
+            }
+            Err(e) => println!("ERR: {e}"),
+        }
+        for e in rasn_compiler::verif_hooks::drain() {
+            eprintln!("{e:?}");
+        }
+        std::process::exit(0);
+    }
     if prop == "setup" {
         println!("setup: harness built against /repo working tree (verif-hooks on)");
         std::process::exit(0);
@@ -53,7 +152,10 @@ fn main() {
     rayon::ThreadPoolBuilder::new().stack_size(256 << 20).build_global().ok();
     let ctx = Ctx { prop: prop.clone(), tier, seed, start: std::time::Instant::now(), replay };
     let rep = match prop.as_str() {
+        "C06" => c06::run(&ctx),
+        "C08" => c08::run(&ctx),
         "C14" => c14::run(&ctx),
+        "C17" => c17::run(&ctx),
         _ => {
             eprintln!("unknown property {prop}");
             std::process::exit(2)
